@@ -14,7 +14,7 @@
       content is the manifest uuid (the rest of a manifest is a function of the commit).
       [Path.open("wb")] = [set_side]: replaces whatever was there.
     - [merge_files(target)] (record.py:605, manifest.py:193-214): refuses on a closed
-      record and on a pending patch; creates the record [target] with mode ['x'] (invalid
+      record, (manifest-aware class) on a record with a stub container, and on a pending patch; creates the record [target] with mode ['x'] (invalid
       name -> ValueError, existing base file -> FileExistsError), fills it, commits it on
       leaving the [with] block, then overwrites the target's user block with a copy of the
       source's NEWEST user block ([prev_patch] := that of the source's oldest container,
@@ -31,6 +31,16 @@
     - [delete_files] and open mode ['w'] are the two explicitly truncating operations; they
       are part of the model ([FDelete], [FOpen _ MW _ _ _]) and are what the property
       excludes ([touches]).
+    - [FStub]: [IH5MFRecord.create_stub(target, manifest_file).close()] (manifest.py:251): the
+      manifest is the sidecar standing beside the container [src] of the directory (missing
+      -> FileNotFoundError); [_create(target)] as for mode ['x']; the stub's user block is the
+      one recorded in the manifest — record id, patch index and patch id of [src], no
+      predecessor — its content the skeleton of the view at that commit (modelled as the
+      merge of the payloads of [src] and its predecessors); the commit marks it as stub and
+      writes a FRESH manifest beside it.  One new committed file plus its sidecar, in the
+      directory of the record or in the other one; nothing else is touched.  Domain: the
+      sidecar beside [src] was written by the commit of [src] or copied from the record a
+      merge result was made of (then its user block agrees with that of [src]).
     - [FDrop]: the handle object is given up (after [close], or without it: the files stay
       as they are, a pending patch stays uncommitted).
 
@@ -56,11 +66,15 @@ Section Model.
   Variable empty : P.                      (* payload of a freshly created container *)
   Variable mergepay : list P -> P.         (* payload of the merge of a view (newest first) *)
 
-  Definition cont : Type := (P * option N)%type.
+  (** Content of a container: payload, and the manifest extension of the user block
+      ([manifest_uuid], [is_stub_container]) if there is one. *)
+  Definition cont : Type := (P * option (N * bool))%type.
   Definition cempty : cont := (empty, None).          (* [ub_exts = {}] *)
-  Definition set_ext (m : N) (c : cont) : cont := (fst c, Some m).
+  Definition set_ext (m : N) (c : cont) : cont := (fst c, Some (m, false)).
   Definition lift (g : P -> P) (c : cont) : cont := (g (fst c), snd c).
-  Definition fext (f : file cont) : option N := snd (fpay f).
+  Definition fext (f : file cont) : option N := option_map fst (snd (fpay f)).
+  Definition fstub (f : file cont) : bool :=
+    match snd (fpay f) with Some (_, b) => b | None => false end.
   Definition pview (s : state cont) : list P := map fst (view s).
 
   Record handle : Type := mkhandle {
@@ -136,7 +150,8 @@ Section Model.
   | FClose (commit : bool) (m : N)
   | FMerge (elsewhere : bool) (t : string) (m : N)
   | FDrop
-  | FDelete (n : string).
+  | FDelete (n : string)
+  | FStub (elsewhere : bool) (t : string) (src : string) (m : N).
 
   Definition put (w : world) (h : handle) (s : state cont) : world :=
     mkworld (POpen (mkhandle s (hmf h) (hman h))) (hsides w) (other w) (osides w).
@@ -176,11 +191,12 @@ Section Model.
 
   Definition merged_file (t : string) (s : state cont) (nw : file cont) : file cont :=
     mkfile (base_filename t) (frec nw) (fidx nw) (fid nw) (fprev (last (mine s) nw)) true
-           (mergepay (pview s), fext nw).
+           (mergepay (pview s), snd (fpay nw)).
 
   Definition do_merge (ew : bool) (t : string) (m : N) (w : world) (h : handle) : world * outcome :=
     let s := hs h in
     if closed s then (w, Err EValue)
+    else if hmf h && existsb fstub (mine s) then (w, Err EValue)   (* "files contain a stub" *)
     else if writable s then (w, Err EValue)
     else if negb (valid_name t) then (w, Err EValue)
     else
@@ -202,6 +218,31 @@ Section Model.
                           (sc (hsides w)) (other w) (osides w), Ok)
       end.
 
+  (** The view at the commit of [src]: [src] and its predecessors, newest first. *)
+  Definition chain_upto (src : file cont) (d : list (file cont)) : list (file cont) :=
+    filter (fun g => N.leb (fidx g) (fidx src)) (sort_desc (files_of (infer_name (fname src)) d)).
+
+  Definition stub_file (t : string) (m : N) (src : file cont) (d : list (file cont)) : file cont :=
+    mkfile (base_filename t) (frec src) (fidx src) (fid src) None true
+           (mergepay (map (fun g => fst (fpay g)) (chain_upto src d)), Some (m, true)).
+
+  Definition do_stub (ew : bool) (t : string) (srcn : string) (m : N) (w : world)
+                     (d : list (file cont)) : world * outcome :=
+    match side_of srcn (hsides w), find (fun f => String.eqb (fname f) srcn) d with
+    | Some _, Some src =>
+        if negb (valid_name t) then (w, Err EValue)
+        else
+          let nm := base_filename t in
+          let f := stub_file t m src d in
+          if ew then
+            if has_name nm (other w) then (w, Err EExists)
+            else (mkworld (PDir d) (hsides w) (other w ++ [f]) (set_side nm m (osides w)), Ok)
+          else
+            if has_name nm d then (w, Err EExists)
+            else (mkworld (PDir (d ++ [f])) (set_side nm m (hsides w)) (other w) (osides w), Ok)
+    | _, _ => (w, Err ENotFound)
+    end.
+
   Definition step (o : fop) (w : world) : world * outcome :=
     match here w with
     | PDir d =>
@@ -216,6 +257,7 @@ Section Model.
             if valid_name n then (mkworld (PDir (others n d)) (hsides w) (other w) (osides w), Ok)
             else (w, Err EValue)
         | FDrop => (w, Ok)
+        | FStub ew t src m => do_stub ew t src m w d
         | _ => (w, Err EKey)                 (* no handle to call the method on *)
         end
     | POpen h =>
@@ -231,6 +273,7 @@ Section Model.
         | FMerge ew t m => do_merge ew t m w h
         | FDrop => (mkworld (PDir (dir_of s)) (hsides w) (other w) (osides w), Ok)
         | FDelete _ => (w, Err EValue)
+        | FStub _ _ _ _ => (w, Err EValue)    (* one handle at a time *)
         end
     end.
 
@@ -264,14 +307,15 @@ Arguments fop : clear implicits.
 (** ** Runner entry: a script from the empty world
 
     Commands: [(open MF mode target r u)] [(cp u)] [(commit m)] [(discard)] [(write tok)]
-    [(read)] [(close C m)] [(merge ELSEWHERE target m)] [(drop)] [(delete name)].
+    [(read)] [(close C m)] [(merge ELSEWHERE target m)] [(drop)] [(delete name)]
+    [(stub ELSEWHERE target src m)].
     Payload = list of tokens; merging a view = all tokens of all containers. *)
 
 Definition merge_tokens (v : list pay) : pay := List.concat (rev v).
 
 Definition sx_cfile (f : file (@cont pay)) : sx :=
   L [A (fname f); of_N (frec f); of_N (fidx f); of_N (fid f); of_opt of_N (fprev f);
-     of_bool (fcommitted f); of_strings (fst (fpay f)); of_opt of_N (snd (fpay f))].
+     of_bool (fcommitted f); of_strings (fst (fpay f)); of_opt of_N (fext f); of_bool (fstub f)].
 
 Definition sx_sides (sd : sides) : sx :=
   of_list (fun km : string * N => L [A (fst km); of_N (snd km)]) sd.
@@ -311,6 +355,11 @@ Definition sx_fop (c : sx) : option (fop pay) :=
       end
   | L [A "drop"] => Some FDrop
   | L [A "delete"; A n] => Some (FDelete n)
+  | L [A "stub"; ew; A t; A src; m] =>
+      match sx_bool ew, sx_N m with
+      | Some ew', Some m' => Some (FStub ew' t src m')
+      | _, _ => None
+      end
   | _ => None
   end.
 
